@@ -5,6 +5,8 @@ package main
 import (
 	"os"
 	"path/filepath"
+	"strconv"
+	"strings"
 
 	"github.com/sheerbytes/sheerbytes/internal/transfer"
 )
@@ -18,7 +20,13 @@ import (
 //	firstchunk    only chunk 0 of the first file written and marked
 //	stale-longer  files exist, longer than the source, with foreign bytes and no metadata
 //	stale-shorter files exist, shorter than the source, foreign bytes, no metadata
+//	<pattern>@N   the pattern as left by a run that used chunk size N instead of this run's
 func applyPre(p *Prepared, outDir string) {
+	pattern, preChunk := p.Case.Pre, p.Case.Chunk
+	if i := strings.IndexByte(pattern, '@'); i >= 0 {
+		n, _ := strconv.Atoi(pattern[i+1:])
+		pattern, preChunk = pattern[:i], uint32(n)
+	}
 	base := filepath.Join(outDir, p.OutBase)
 	os.MkdirAll(base, 0755)
 	nfile := -1
@@ -30,7 +38,7 @@ func applyPre(p *Prepared, outDir string) {
 		want := p.Files[it.RelPath]
 		fp := filepath.Join(base, filepath.FromSlash(it.RelPath))
 		os.MkdirAll(filepath.Dir(fp), 0755)
-		switch p.Case.Pre {
+		switch pattern {
 		case "stale-longer":
 			b := make([]byte, len(want)+7)
 			for i := range b {
@@ -47,20 +55,20 @@ func applyPre(p *Prepared, outDir string) {
 			os.WriteFile(fp, b, 0644)
 			continue
 		}
-		chunk := int64(p.Case.Chunk)
+		chunk := int64(preChunk)
 		total := (it.Size + chunk - 1) / chunk
 		if total == 0 {
 			os.WriteFile(fp, nil, 0644)
 			continue
 		}
 		data := make([]byte, it.Size)
-		sc, err := transfer.CreateSidecar(transfer.SidecarPath(base, "", it.ID), it.ID, it.Size, p.Case.Chunk)
+		sc, err := transfer.CreateSidecar(transfer.SidecarPath(base, "", it.ID), it.ID, it.Size, preChunk)
 		if err != nil {
 			panic(err)
 		}
 		for i := int64(0); i < total; i++ {
 			mark := false
-			switch p.Case.Pre {
+			switch pattern {
 			case "complete":
 				mark = true
 			case "partial":
